@@ -189,8 +189,14 @@ def g2_onwards(ctx, rep):
         rep.check(not selfpush, 'G5', f'{cname}:no-self-dependency', 'the item is not its own dependency', f"{cname} pushes the item's own name (`{vt.show(selfpush[0]['args'][-1])[:60] if selfpush else ''}`) into its dependency list: toposort_impl reads the self-edge as a cycle and skips the item's remaining dependencies, which are then written after it", {'file': fc['file'], 'line': selfpush[0].get('line') if selfpush else fc['line']})
     # G3 drivers
     for qual, file in DRIVERS:
-        d = ctx.fn(qual, file=file)
+        d0 = ctx.fn(qual, file=file)
+        # inlined view: a helper that builds and sorts the list (`sorted_items(data)`) is part of the driver
+        d = ctx.x(d0)
         site = {'file': d['file'], 'line': d['line']}
+
+        def pos(c):
+            # source position in the driver: facts of an expanded helper sit at its call site, ordered among themselves
+            return (c.get('via_line') or c.get('line', 0), c.get('line', 0) if c.get('via_line') else 0)
         ts = [c for c in d['calls'] if c.get('f') == 'topsort']
         rep.check(len(ts) == 1, 'G3', f'{qual}:topsort-once', 'topsort called once', f'{qual} calls topsort {len(ts)} times', site)
         if not ts:
@@ -205,19 +211,39 @@ def g2_onwards(ctx, rep):
         rep.check(len({c['f'] for c in writes}) == 4, 'G3', f'{qual}:all-kinds-written', 'four item kinds written', f"{qual} writes only {sorted({c['f'] for c in writes})}", site)
         # nothing reorders the list after the topological sort
         sorted_var = vt.show(vt.strip(arg)).split('.')[0].strip('&').replace('mut ', '').strip()
+        sorted_key = vt.ckey(vt.strip(arg))
+
+        def is_sorted_list(v):
+            v = vt.strip(v)
+            return isinstance(v, dict) and (vt.ckey(v) == sorted_key or vt.show(v).split('.')[0] == sorted_var)
         REORDER = ('sort', 'sort_by', 'sort_by_key', 'sort_unstable', 'sort_unstable_by', 'sort_unstable_by_key', 'sort_by_cached_key', 'reverse', 'swap', 'rotate_left', 'rotate_right', 'retain', 'dedup', 'dedup_by', 'dedup_by_key', 'remove', 'insert', 'swap_remove', 'drain', 'truncate', 'select_nth_unstable', 'partition_point', 'shuffle')
-        later = [c for c in d['calls'] if c.get('f') in REORDER and c.get('recv') is not None and c.get('line', 0) > ts[0]['line'] and vt.show(vt.strip(c['recv'])).split('.')[0] == sorted_var]
+        later = [c for c in d['calls'] if c.get('f') in REORDER and c.get('recv') is not None and pos(c) > pos(ts[0]) and is_sorted_list(c['recv'])]
         rep.check(not later, 'G3', f'{qual}:no-reordering-after-topsort', 'the sorted order is what is written', f"{qual} reorders the list after topsort with `{later[0]['f'] if later else ''}` ({vt.show(later[0]['args'][0])[:50] if later and later[0].get('args') else ''}): items are no longer written dependencies-first (e.g. a constant before the alias that is its type)", {'file': d['file'], 'line': later[0].get('line') if later else d['line']})
-        early = [c for c in writes if c['line'] < ts[0]['line']]
+        early = [c for c in writes if pos(c) < pos(ts[0])]
         rep.check(not early, 'G3', f'{qual}:sorted-before-write', 'topsort precedes every write', f'{qual} writes items before sorting', site)
         sinks = {emit.sig(c['args'][0]) for c in writes if c.get('args')}
         rep.check(len(sinks) == 1, 'G3', f'{qual}:single-sink', 'all item kinds go to one sink in list order',
                   f"{qual} writes item kinds into {len(sinks)} different sinks ({sorted({vt.show(c['args'][0])[:20] for c in writes})}): items of one kind are emitted out of the sorted order (e.g. constants before the aliases they use)", site)
-        loops = [l for l in d['loops'] if l.get('kind') == 'for' and 'items' in vt.show(l['over'])]
+        loops = [l for l in d['loops'] if l.get('kind') == 'for' and (is_sorted_list(l['over']) or 'items' in vt.show(l['over']))]
         wl = [l for l in loops if any(any(fr.get('k') == 'for' and fr.get('line') == l['line'] for fr in c['guard']) for c in writes)]
         rep.check(len(wl) == 1, 'G3', f'{qual}:one-write-loop', 'one loop over the sorted list', f'{qual}: {len(wl)} loops write items', site)
+        if len(wl) == 1:
+            outside = [c for c in writes if not any(fr.get('k') == 'for' and fr.get('line') == wl[0]['line'] for fr in c['guard'])]
+            rep.check(not outside, 'G3', f'{qual}:every-write-in-the-sorted-loop', 'items are written only while walking the sorted list', f"{qual}: `{outside[0]['f'] if outside else ''}` is {'reached through ' + str(outside[0].get('via')) + ' ' if outside and outside[0].get('via') else ''}called outside the loop over the sorted list — that item kind is written at a position the topological order did not choose", {'file': d['file'], 'line': outside[0].get('via_line') or outside[0].get('line') if outside else d['line']})
         for l in wl:
-            chain = [c.get('f') for c in vt.calls_in(l['over'])]
+            # adaptors between the sorted list and the loop variable
+            chain, v2 = [], l['over']
+            for _ in range(24):
+                v2 = vt.unvar(v2)
+                if not isinstance(v2, dict):
+                    break
+                if v2.get('k') in ('ref', 'deref', 'paren'):
+                    v2 = v2.get('v')
+                elif v2.get('k') == 'call' and v2.get('recv') is not None:
+                    chain.append(v2.get('f'))
+                    v2 = v2['recv']
+                else:
+                    break
             bad = [c for c in chain if c in ('filter', 'skip', 'take', 'rev', 'step_by', 'filter_map', 'sorted')]
             rep.check(not bad, 'G3', f'{qual}:loop-unfiltered', 'in order, unfiltered', f'{qual} iterates the sorted list through {bad}', {'file': d['file'], 'line': l['line']})
         for l in d['loops']:
